@@ -90,7 +90,7 @@ def check(ctx):
         ctx.check(bool(rng_ok), "R3", "jacrhs:wrap:range", where(s), "wrap visits row n_spec, columns range(n_spec), once each",
                   found=f"row={s.row} col={show(s.col) if s.col else None}")
         v = s.value
-        slot = ("sub", ("acc", "jacrhs"), simp(f.index))
+        slot = ("sub", m.JAC, simp(f.index))
         form_ok = False
         found = show(v)[:200]
         if v[0] == "ifexp":
@@ -325,7 +325,7 @@ def _r5(ctx, m):
             "rows": (lambda a: a[0] == "acc" and {a[1]} == roles.get("rows"), f"the row-pointer list {sorted(roles.get('rows', []))}"),
             "cols": (lambda a: a[0] == "acc" and {a[1]} == roles.get("cols"), f"the column-index list {sorted(roles.get('cols', []))}"),
             "vals": (lambda a: a[0] == "acc" and {a[1]} == roles.get("vals"), f"the value list {sorted(roles.get('vals', []))}"),
-            "rhs": (lambda a: a == ("acc", "jacrhs"), "jacrhs"),
+            "rhs": (lambda a: a == m.JAC, "jacrhs"),
         }
         for fld, (pred, desc) in want.items():
             a = args.get(fld)
@@ -418,6 +418,11 @@ MUTANTS = [
     {"name": "skip-catalyst-jac", "file": T, "old": "            for specidx in pspecidx:\n                for ri in rspecidx:\n                    rsymcopy = rsym.copy()", "new": "            for specidx in pspecidx:\n                if specidx in rspecidx:\n                    continue\n                for ri in rspecidx:\n                    rsymcopy = rsym.copy()", "rules": ["R1"]},
 ]
 BENIGN = [
+    {"name": "arrays-renamed", "edits": [
+        {"file": T, "old": "jacrhs", "new": "jacent", "count": 13},
+        {"file": T, "old": "rhs[", "new": "derivs[", "count": 9},
+        {"file": T, "old": "        rhs = [\"0.0\"] * n_eqns", "new": "        derivs = [\"0.0\"] * n_eqns"},
+        {"file": T, "old": "zip(lhs, rhs)", "new": "zip(lhs, derivs)"}]},
     {"name": "modifier-copy-by-list", "file": T, "old": "depsymcopy = depsym.copy()", "new": "depsymcopy = list(depsym)"},
     {"name": "list-instead-of-copy", "file": T, "old": "rsymcopy = rsym.copy()", "new": "rsymcopy = list(rsym)", "count": 4},
     {"name": "index-commuted", "file": T, "old": "jacrhs[specidx * n_eqns + ri] += term", "new": "jacrhs[ri + n_eqns * specidx] += term", "count": 2},
